@@ -3,6 +3,7 @@
 
 use std::{
     any::Any,
+    future::Future as _,
     collections::VecDeque,
     panic::{self, AssertUnwindSafe},
     pin::Pin,
@@ -409,7 +410,7 @@ pub const RE_DUP: &str = "^dup .*$";
 pub const DUP_LOC_1: step::Location = step::Location { path: "vlab/dup.rs", line: 5, column: 1 };
 pub const DUP_LOC_2: step::Location = step::Location { path: "vlab/dup_copy.rs", line: 6, column: 1 };
 
-pub fn build_runner(case: &RCase) -> runner::Basic<W> {
+fn collection() -> step::Collection<W> {
     let re_ok = regex::Regex::new(RE_OK).unwrap();
     let re_amb = regex::Regex::new(RE_AMB).unwrap();
     let coll = step::Collection::<W>::new()
@@ -422,37 +423,170 @@ pub fn build_runner(case: &RCase) -> runner::Basic<W> {
     // `thn` steps: defined for `Then` only (same line as the generic definition, another file)
     let coll = coll.then(Some(step::Location { path: "vlab/then_only.rs", line: OK_LOC.line, column: 1 }), regex::Regex::new("^thn .*$").unwrap(), step_fn);
     let re_dup = regex::Regex::new(RE_DUP).unwrap();
-    let coll = coll
-        .given(Some(DUP_LOC_1), re_dup.clone(), step_fn2)
+    coll.given(Some(DUP_LOC_1), re_dup.clone(), step_fn2)
         .given(Some(DUP_LOC_2), re_dup.clone(), step_fn2)
         .when(Some(DUP_LOC_1), re_dup.clone(), step_fn2)
         .when(Some(DUP_LOC_2), re_dup.clone(), step_fn2)
         .then(Some(DUP_LOC_1), re_dup.clone(), step_fn2)
-        .then(Some(DUP_LOC_2), re_dup, step_fn2);
-    let mut r = runner::Basic::<W>::default().steps(coll);
+        .then(Some(DUP_LOC_2), re_dup, step_fn2)
+}
+
+/// One builder call. The same list configures a `runner::Basic` and the `Cucumber` facade (whose
+/// methods of the same names forward to the runner and rebuild the facade around it).
+#[derive(Clone, Copy, Debug, PartialEq, Eq)]
+pub enum Op {
+    Steps,
+    MaxConc,
+    FailFast,
+    Retries,
+    RetryAfter,
+    RetryFilter,
+    RetryOptions,
+    Which,
+    Before,
+    After,
+    /// facade only: `with_cli`
+    Cli,
+    /// facade only: `with_parser` (the facade is created around a decoy)
+    Parser,
+    /// facade only: `with_writer` (the facade is created around a decoy)
+    Writer,
+}
+
+fn case_hash(case: &RCase) -> u64 {
+    crate::tape::hash_str(&case.describe().to_string())
+}
+
+/// Whether this case is run through the `Cucumber` facade (`Cucumber::custom(..).run(..)`) instead
+/// of `Runner::run` directly.
+pub fn via_facade(case: &RCase) -> bool {
+    case_hash(case) % 3 == 0
+}
+
+/// The builder calls of this case in the order they are made. The builder methods commute (each
+/// sets its own field; those that change a type parameter rebuild the value around the others), so
+/// three quarters of the cases call them in a case-dependent permutation.
+pub fn builder_ops(case: &RCase, facade: bool) -> Vec<Op> {
+    let mut ops = vec![Op::Steps];
     if case.conc_builder_set {
-        r = r.max_concurrent_scenarios(case.conc_builder);
+        ops.push(Op::MaxConc);
     }
     if case.fail_fast_builder {
-        r = r.fail_fast();
+        ops.push(Op::FailFast);
     }
-    r = r.retries(case.retry_builder.retry).retry_after(case.retry_builder.after).retry_filter(case.retry_builder.filter.clone());
-    if let Some(b) = &case.retry_closure {
-        let b = b.clone();
-        r = r.retry_options(move |_, _, s, _| b.get(&s.name).map(|(n, d)| RetryOptions { retries: Retries::initial(*n), after: *d }));
+    ops.extend([Op::Retries, Op::RetryAfter, Op::RetryFilter]);
+    if case.retry_closure.is_some() {
+        ops.push(Op::RetryOptions);
     }
     if case.custom_classifier {
-        r = r.which_scenario(custom_which as runner::basic::WhichScenarioFn);
+        ops.push(Op::Which);
     }
     if case.before {
-        r = r.before(before_hook as runner::basic::BeforeHookFn<W>);
+        ops.push(Op::Before);
     }
     if case.after {
-        r = r.after(after_hook as runner::basic::AfterHookFn<W>);
+        ops.push(Op::After);
+    }
+    if facade {
+        ops.extend([Op::Cli, Op::Parser, Op::Writer]);
+    }
+    let mut h = case_hash(case) / 3;
+    if h % 4 != 0 {
+        h /= 4;
+        for i in (1..ops.len()).rev() {
+            h = h.wrapping_mul(6364136223846793005).wrapping_add(1442695040888963407);
+            ops.swap(i, ((h >> 33) as usize) % (i + 1));
+        }
+    }
+    // `with_parser` / `with_writer` change the CLI type and so discard the options by design:
+    // `with_cli` is the last of the three
+    if let Some(c) = ops.iter().position(|o| *o == Op::Cli) {
+        let last = ops.iter().rposition(|o| matches!(o, Op::Parser | Op::Writer)).unwrap_or(c);
+        if last > c {
+            ops.swap(c, last);
+        }
+    }
+    ops
+}
+
+macro_rules! apply_op {
+    ($r:expr, $case:expr, $op:expr, $cli:expr) => {
+        match $op {
+            Op::Steps => $r.steps(collection()),
+            Op::MaxConc => $r.max_concurrent_scenarios($case.conc_builder),
+            Op::FailFast => $r.fail_fast(),
+            Op::Retries => $r.retries($case.retry_builder.retry),
+            Op::RetryAfter => $r.retry_after($case.retry_builder.after),
+            Op::RetryFilter => $r.retry_filter($case.retry_builder.filter.clone()),
+            Op::RetryOptions => {
+                let b = $case.retry_closure.clone().unwrap_or_default();
+                $r.retry_options(move |_, _, s, _| b.get(&s.name).map(|(n, d)| RetryOptions { retries: Retries::initial(*n), after: *d }))
+            }
+            Op::Which => $r.which_scenario(custom_which as runner::basic::WhichScenarioFn),
+            Op::Before => $r.before(before_hook as runner::basic::BeforeHookFn<W>),
+            Op::After => $r.after(after_hook as runner::basic::AfterHookFn<W>),
+            Op::Cli | Op::Parser | Op::Writer => $cli($r, $op),
+        }
+    };
+}
+
+pub fn build_runner(case: &RCase) -> runner::Basic<W> {
+    let mut r = runner::Basic::<W>::default();
+    for op in builder_ops(case, false) {
+        r = apply_op!(r, case, op, |r, _| r);
     }
     // A configured runner may be cloned before it is run (a base runner shared by several runs):
     // every other case runs the clone.
     if case.scenarios.len() % 2 == 1 { r.clone() } else { r }
+}
+
+/// (`Clone`, so that the facade is: the stream goes to whichever copy parses first - the one run.)
+#[derive(Clone)]
+pub struct PW(pub std::rc::Rc<std::cell::RefCell<Option<LabParser>>>);
+
+impl cucumber::Parser<()> for PW {
+    type Cli = cucumber::cli::Empty;
+    type Output = LabParser;
+
+    fn parse(self, (): (), _: cucumber::cli::Empty) -> LabParser {
+        self.0.borrow_mut().take().expect("parsed once")
+    }
+}
+
+#[derive(Clone, Default)]
+pub struct QW(pub std::rc::Rc<std::cell::RefCell<VecDeque<RawEv>>>);
+
+impl cucumber::Writer<W> for QW {
+    type Cli = cucumber::cli::Empty;
+
+    async fn handle_event(&mut self, e: RawEv, _: &cucumber::cli::Empty) {
+        self.0.borrow_mut().push_back(e);
+    }
+}
+
+impl cucumber::writer::Normalized for QW {}
+
+type Facade = cucumber::Cucumber<W, PW, (), runner::Basic<W>, QW, cucumber::cli::Empty>;
+
+/// The same configuration made through the `Cucumber` facade: an unconfigured runner inside, every
+/// builder call (and `with_cli`) made on the facade.
+pub fn build_facade(case: &RCase, parser: LabParser, queue: QW) -> Facade {
+    use cucumber::cli;
+    let cell = |p: Option<LabParser>| PW(std::rc::Rc::new(std::cell::RefCell::new(p)));
+    let mut real_parser = Some(parser);
+    let mut c: Facade = cucumber::Cucumber::custom(cell(None), runner::Basic::<W>::default(), QW::default());
+    for op in builder_ops(case, true) {
+        let opts = || cli::Opts::<cli::Empty, runner::basic::Cli, cli::Empty, cli::Empty> { re_filter: None, tags_filter: None, parser: cli::Empty, runner: build_cli(case), writer: cli::Empty, custom: cli::Empty };
+        c = apply_op!(c, case, op, |c: Facade, op: Op| -> Facade {
+            match op {
+                Op::Parser => c.with_parser::<PW, ()>(cell(real_parser.take())),
+                Op::Writer => c.with_writer(queue.clone()),
+                _ => c.with_cli(opts()),
+            }
+        });
+    }
+    // like the runner, a configured `Cucumber` may be cloned before it is run
+    if case.scenarios.len() % 2 == 1 { c.clone() } else { c }
 }
 
 pub fn build_cli(case: &RCase) -> runner::basic::Cli {
@@ -540,7 +674,13 @@ pub fn prepare(case: &RCase) -> (LabParser, Arc<AtomicU64>) {
 
 pub fn run_case(case: &RCase, sched: &mut Schedule<'_>) -> RunLog {
     let (parser, delivered) = prepare(case);
-    let mut stream = build_runner(case).run(parser, build_cli(case));
+    if via_facade(case) {
+        return run_case_facade(case, sched, parser, &delivered);
+    }
+    let runner = build_runner(case);
+    // every other case keeps another handle to the configured runner alive while this one runs
+    let _spare = (case_hash(case) % 2 == 0).then(|| runner.clone());
+    let mut stream = runner.run(parser, build_cli(case));
     // `Runner::run` only describes the run. The process panic hook "installed before the run" is
     // the one in place when the stream is first polled: every other case installs a fresh hook
     // between the two moments.
@@ -548,6 +688,40 @@ pub fn run_case(case: &RCase, sched: &mut Schedule<'_>) -> RunLog {
         install_probe_hook();
     }
     run_with(case, sched, &mut |cx| stream.as_mut().poll_next(cx), &delivered, QUIESCE_POLLS)
+}
+
+/// The run as a user of the crate makes it: `Cucumber::custom(parser, runner, writer)`, configured
+/// through the facade's own builder methods, `run()` polled by hand; the events are what the
+/// writer receives.
+fn run_case_facade(case: &RCase, sched: &mut Schedule<'_>, parser: LabParser, delivered: &Arc<AtomicU64>) -> RunLog {
+    let queue = QW::default();
+    let q = queue.0.clone();
+    let facade = build_facade(case, parser, queue);
+    let _spare = (case_hash(case) % 2 == 0).then(|| facade.clone());
+    let mut fut = Box::pin(facade.run(()));
+    if case.plan.len() % 2 == 0 {
+        install_probe_hook();
+    }
+    let mut done = false;
+    let mut poll = |cx: &mut Context<'_>| -> Poll<Option<RawEv>> {
+        if let Some(e) = q.borrow_mut().pop_front() {
+            return Poll::Ready(Some(e));
+        }
+        if done {
+            return Poll::Ready(None);
+        }
+        match fut.as_mut().poll(cx) {
+            Poll::Ready(_) => {
+                done = true;
+                Poll::Ready(q.borrow_mut().pop_front())
+            }
+            Poll::Pending => match q.borrow_mut().pop_front() {
+                Some(e) => Poll::Ready(Some(e)),
+                None => Poll::Pending,
+            },
+        }
+    };
+    run_with(case, sched, &mut poll, delivered, QUIESCE_POLLS)
 }
 
 /// The driver loop over any source of events (`poll` = the stream's `poll_next`).
